@@ -43,6 +43,7 @@ type decOut struct {
 	Why   string   `json:"why,omitempty"`
 	Ref   []string `json:"ref,omitempty"`   // accounting reference loop over the real detectOneMsg
 	RefW  []int    `json:"ref_w,omitempty"` // widths of the reference runs
+	At    []int    `json:"at,omitempty"`    // for every message: how many Read calls had been made when it was delivered
 }
 
 func toBytes(l []int) []byte {
@@ -60,11 +61,16 @@ type scriptReader struct {
 	greedy      bool
 	chunks      [][]byte
 	final       error
-	reads       int
+	reads       int32
+	sent        func() int // messages sent so far (deliveryPoints)
+	marks       []int      // its value at the start of every Read
 }
 
 func (s *scriptReader) Read(p []byte) (int, error) {
-	s.reads++
+	atomic.AddInt32(&s.reads, 1)
+	if s.sent != nil {
+		s.marks = append(s.marks, s.sent())
+	}
 	if len(s.chunks) == 0 {
 		return 0, s.final
 	}
@@ -288,7 +294,49 @@ func runRead(in decIn) decOut {
 	out.Msgs = append([]string{}, got...)
 	out.Strs = append([]string{}, strs...)
 	mu.Unlock()
+	if in.Cancel < 0 && !in.Greedy && out.Why == "err" {
+		out.At = deliveryPoints(in, len(out.Msgs))
+	}
 	return out
+}
+
+// deliveryPoints runs the same script once more with a channel large enough to hold every message (nobody receives
+// while the reader runs, so nothing races): at the start of every Read the number of messages sent so far is noted,
+// which tells during which read each message was sent.  nil when this second run does not reproduce the first.
+func deliveryPoints(in decIn, want int) []int {
+	sr := &scriptReader{final: io.EOF, errWithLast: in.ErrWithLast}
+	if in.Err == "fail" {
+		sr.final = errScripted
+	}
+	for _, c := range in.Chunks {
+		sr.chunks = append(sr.chunks, toBytes(c))
+	}
+	msgs := make(chan tea.Msg, want+8)
+	sr.sent = func() int { return len(msgs) }
+	done := make(chan struct{})
+	go func() {
+		defer func() { _ = recover(); close(done) }()
+		_ = tea.VerifReadAnsiInputs(context.Background(), msgs, sr)
+	}()
+	select {
+	case <-done:
+	case <-time.After(4 * time.Second):
+		return nil
+	}
+	if len(msgs) != want {
+		return nil
+	}
+	at := make([]int, 0, want)
+	for k := 0; k < len(sr.marks); k++ {
+		hi := want
+		if k+1 < len(sr.marks) {
+			hi = sr.marks[k+1]
+		}
+		for j := sr.marks[k]; j < hi; j++ {
+			at = append(at, k+1)
+		}
+	}
+	return at
 }
 
 func decoderMain(args []string) {
